@@ -55,7 +55,7 @@ class P:
             "re-registering itself) x nesting depth 1..3 (a handler whose action executes a program that invokes the next handler); at "
             "depth 1 also x ten sites of the invoking expression (alone, in a list of plain names, list, membership list, map value / key, "
             "conditional branch, call argument, assignment, twice in one expression), and with every handler's name also bound the other way round (context variables named like the registered function and operators, a global function named like the context function) - "
-            "exhaustive. Oracle: the outer evaluation completes (no DEADLOCK, no PANIC) with the handler's normal result and the "
+            "exhaustive; and two threads over one context while its context function holds the context's handle and re-enters on another context (2 x 4 x 7 scenarios, oracle only). Oracle: the outer evaluation completes (no DEADLOCK, no PANIC) with the handler's normal result and the "
             "re-entrant effect is visible afterwards. Non-trivial = distinct scenario.")
     assumptions = ["deadlock = no result within the watchdog; the slowest completed scenario takes a few milliseconds"]
     trusted_extra = ["watchdog in harness/src/hist.rs (8 s) and persistent worker threads"]
@@ -111,13 +111,29 @@ class P:
                         # context function is registered globally (which handler is invoked, and how, is unchanged)
                         sh = ["CV:1:%s:n(0,7,0)" % hx(nm) for nm in ("gfun", "pre", "inf", "post", "setto", "newf", "ident")] + ["REGF:%s:49" % hx("cfun")]
                         items.append((" ".join(ops + sh + tail), (kind, aname, depth, hs[0], len(ops) + len(sh), site)))
-        return flow.mk_cases("reenter", items)
+        # TWO threads over ONE context: a context function holds the guard of its own context's handle while it re-enters the
+        # engine on another context (a program that takes 100 ms and then calls a registered function / uses every registry);
+        # 40 ms in, a second thread evaluates over the shared context. Whatever lock the engine takes before it looks into the
+        # context, the two must both finish.
+        shared = []
+        inner_progs = ["slow() + g(1)", "slow() + (- 1) ++ + sum(1, 2)", "slow(); 'ab' beginWith 'a' && g(2) > 0", "g(slow())"]
+        b_progs = ["g(1)", "x + g(x)", "f2(1)", "[x, g(1), max(x, 2)]", "x = g(1); x", "- x ++ + 1", "f2"]
+        for how in ("f", "f()"):
+            for ip in inner_progs:
+                for bp in b_progs:
+                    ops = ["H:70:qY1.X2.%s.rn(0,1,0)" % hx(ip), "H:71:qZ100.rn(0,2,0)", "H:72:rn(0,3,0)", "H:73:rn(0,4,0)",
+                           "CF:1:%s:70" % hx("f"), "CF:1:%s:73" % hx("f2"), "CF:2:%s:71" % hx("slow"), "REGF:%s:72" % hx("g"),
+                           "CV:1:%s:n(0,1,0)" % hx("x"), "PARSE:" + hx("1")]
+                    line = " ".join(ops + ["||", "EXEC:1:" + hx(how), "~40/EXEC:1:" + hx(bp), ";;", "EXEC:1:" + hx("1 + 1")])
+                    shared.append((line, ("shared-ctx", how, ip, bp, len(ops), "plain")))
+        return flow.mk_cases("reenter", items) + flow.mk_cases("shared", shared)
 
     def show(self, case):
         k, a, d, h, n, site = case.meta
         return {"handler": k, "action": a, "depth": d, "site": site, "ops": case.line.split(" ")[1:]}
 
     def classify(self, case, impl):
+        if case.meta[0] == "shared-ctx": return "shared:" + impl.split(" ")[case.meta[4] + 1].split(":")[0] if len(impl.split(" ")) > case.meta[4] + 1 else impl[:10]
         n = case.meta[4]
         return impl.split(" ")[n].split(":")[0] if len(impl.split(" ")) > n else impl[:10]
 
@@ -125,6 +141,7 @@ class P:
         return True
 
     def compare(self, case, impl, model):
+        if case.meta[0] == "shared-ctx": return None      # two concurrent calls: judged by the oracle (each must return its own result)
         io, mo = impl.split(" "), model.split(" ")
         if len(io) != len(mo): return "length"
         for a, b in zip(io, mo):
@@ -141,6 +158,13 @@ class P:
     def oracle(self, case, impl):
         kind, aname, depth, h, n, site = case.meta
         outs = impl.split(" ")
+        if kind == "shared-ctx":
+            if len(outs) < n + 5 or any(o.split(":")[0] in ("DEADLOCK", "PANIC", "HANG", "MISSING", "ABORT") for o in outs) or impl in ("HANG", "ABORT", "MISSING"):
+                return "violates", "two threads over one context, the context function holding its context's handle while it re-enters: " + " ".join(o[:12] for o in outs[n:])
+            a = values.split_exec(outs[n + 1]); last = values.split_exec(outs[-1])
+            if a["cls"] != "OK" or a["value"] != "n(0,1,0)" or last["cls"] != "OK" or last["value"] != "n(0,2,0)":
+                return "violates", "normal results expected, got %s / %s" % (outs[n + 1][:40], outs[-1][:40])
+            return "ok", ""
         if len(outs) <= n: return "violates", "no result: " + impl[:60]
         o = outs[n]
         if o.startswith("DEADLOCK") or "SKIP" in outs or o in ("HANG", "ABORT", "MISSING"):
